@@ -385,12 +385,43 @@ func (rn *runner) runOnce(runIdx int, p profile, nW, nR, batches, scans int) {
 			if os.Getenv("VERIF_C04_NOMAINT") != "" {
 				continue
 			}
-			switch x := fr.IntN(10); {
+			x := fr.IntN(10)
+			if n%3 == 2 {
+				x = 6 // every third action: merge with concurrent full compactions
+			}
+			switch {
 			case x < 6:
 				atomic.AddInt64(&flushGen, 1)
 				_ = s.Flush()
 				atomic.AddInt64(&flushGen, 1)
 				c.Count("forced-flushes", 1)
+			case x < 8 && n%3 == 2:
+				// an out-of-order merge with two full compactions requested while it runs: the
+				// planner must leave the files the merge owns alone, both times
+				atomic.AddInt64(&flushGen, 1)
+				_ = s.Flush() // late rows become an out-of-order file: the merge has work
+				atomic.AddInt64(&flushGen, 1)
+				atomic.AddInt64(&replaceGen, 1)
+				// hold the merge inside its file replacement (it owns its input files until the end)
+				hold := "replace-after-log=sleep(450)"
+				if p.Points != "" {
+					hold = p.Points + ";" + hold
+				}
+				_ = s.Points(hold)
+				var mwg sync.WaitGroup
+				mwg.Add(3)
+				go func() { defer mwg.Done(); _ = s.Merge() }()
+				for _, d := range []int{20 + fr.IntN(60), 150 + fr.IntN(200)} {
+					go func(d int) {
+						defer mwg.Done()
+						time.Sleep(time.Duration(d) * time.Millisecond)
+						_ = s.Compact("full")
+					}(d)
+				}
+				mwg.Wait()
+				_ = s.Points(p.Points)
+				atomic.AddInt64(&replaceGen, 1)
+				c.Count("forced-merges-with-concurrent-full-compactions", 1)
 			case x < 8:
 				atomic.AddInt64(&replaceGen, 1)
 				_ = s.Merge()
